@@ -113,7 +113,7 @@ def observe(w, rounds=3):
     return obs
 
 
-def run_case(sess, prog, target='r', k=None, mode=None, items=0, wait_timeout=6, target_none=False, extra_kwargs=None, stateful=False):
+def run_case(sess, prog, target='r', k=None, mode=None, items=0, wait_timeout=6, target_none=False, extra_kwargs=None, stateful=False, consumer=False):
     """returns dict(trace, dead, obs (list), results (persistent stream), term_ret, notes)"""
     import importlib
     mod, clsname, kind, persistent = KINDS[prog]
@@ -165,9 +165,16 @@ def run_case(sess, prog, target='r', k=None, mode=None, items=0, wait_timeout=6,
         if persistent:
             for i in range(items):
                 try:
-                    w.enqueue(i + 2)
+                    # enqueues of different shapes: the first overrides two positionals, the others one
+                    w.enqueue(*((i + 2, 3) if i == 0 else (i + 2,)))
                 except Exception:
                     res['notes'].append('enqueue-refused')
+        cons = None
+        if consumer and persistent:
+            got = []
+            cons = threading.Thread(target=lambda: got.extend(w.results_iter()), daemon=True)
+            cons.start()
+            time.sleep(0.05)
         if mode == 'terminate':
             if persistent:
                 w.close()       # the release marker follows the items, so that landing points after the loop are reachable
@@ -197,7 +204,11 @@ def run_case(sess, prog, target='r', k=None, mode=None, items=0, wait_timeout=6,
             watchdog(lambda: w.terminate(1, **({'force': True} if kind != 'thread' else {})), 10)
         res['dead'] = not w.is_alive()
         res['obs'] = observe(w)
-        if persistent:
+        if cons is not None:
+            cons.join(4)
+            res['consumer_blocked'] = cons.is_alive()
+            res['results'] = list(got)
+        elif persistent:
             st, r = watchdog(lambda: list(w.results_iter()), 10)
             res['results'] = r if st == 'ok' else st
         res['user_state'] = repr(w.user_state)
